@@ -88,6 +88,21 @@ PLANS = {
                 "distinct_nontrivial = distinct (world,text,offset) with at least one expected match",
         "assumptions": COMMON_ASSUMPTIONS,
     },
+    "C05": lambda tier: {
+        "level": "exploration",
+        "stages": [main_stage(40, 300, tier)],
+        "require": ["fields_compared", "matrix_cells_compared", "recompilations_compared", "loads_at_other_alignment"],
+        "rule": "seeded lexicons (homographs, non-indexed rows, differing headword/reading/normalised forms, dictionary-form references, "
+                "numeric and inline A/B split references, word structure, 0-127 synonym ids, \\u escapes, strings of 1/126/127/128/129/255/256/"
+                "1000/10922 UTF-16 units incl. surrogate pairs, keys of 126-255 bytes, empty forms) + square / non-square matrices with "
+                "extreme costs + 0-3 user dictionaries (U-references, own POS); every field of every entry and every matrix cell of the "
+                "loaded dictionary is compared with the source model; each input is compiled twice (byte comparison); the bytes are "
+                "re-loaded from base+1..base+7 and all observations compared. distinct_nontrivial = distinct lexicons containing split "
+                "references that passed all comparisons",
+        "assumptions": COMMON_ASSUMPTIONS + ["an empty reading / normalised form in the CSV is not compared (format's spelling of 'same as headword')",
+                                             "user-dictionary dic_form is always '*' in the main generator (D18)",
+                                             "determinism is checked in-process (std HashMap seeds differ per instance, so hash-order dependence would show)"],
+    },
 }
 
 
